@@ -132,6 +132,7 @@ func TestC04_Exhaustive(t *testing.T) {
 	maxLen := pick(4, 5)
 	rec := evid.New("C04", "TestC04_Exhaustive", "C04", c04Rule)
 	rec.Exhaustive = true
+	rec.DupFree = true
 	rec.Bounds = "all strings of length 0.." + itoa(maxLen) + " over the 23-symbol class alphabet " + strings.Join(c04Alphabet, "") + " x 4 tokenizers"
 	enumStrings(c04Alphabet, maxLen, true, func(parts []string) {
 		in := runesOf(parts)
